@@ -1,4 +1,5 @@
 import PytaskProofs.Lemmas.EngineCrash
+import PytaskProofs.Lemmas.EngineConverge
 /-!
 # C05 — abrupt termination never leaves state that hides outstanding work
 
@@ -89,17 +90,12 @@ theorem C05_unchanged_rows (F : BodyFn) (P : Project) (g : G) (cfg : Cfg) (s : S
     (h : (runPhases F P g cfg s t).1 = .skippedUnchanged) : RowsMatch P g s.w t.id :=
   (rowsMatch_of_skippedUnchanged F P g cfg s t h).1
 
-/-- **C05_converge_partial** (one step of convergence). In any world in which `Inv` holds — by `C05_rows_safe` that is every
+/-- **C05_converge_step** (one step of convergence). In any world in which `Inv` holds — by `C05_rows_safe` that is every
 world a kill can leave — a protocol of `spec` (any configuration) that is reported SUCCESS or SKIP_UNCHANGED leaves the
 products of `spec` fresh: what its body produces from the contents its module and dependencies have at that moment. A task
 that needed to run and did not complete cannot be reported unchanged with stale products; if it is reported SUCCESS it has been
-executed. *Missing for the full statement* ("recovery build with exit 0 ⇒ every product equals the from-scratch value, and the
-build after that executes nothing"): the chaining of these steps along the task order — that the contents of `spec`'s
-dependencies are already final when `spec` is processed (needs `C01_order` for the recovery build, failure containment
-`C04_contain`, and uniqueness of products) — i.e. the same induction as `C02_partial`, started from `Inv` at the crash world
-instead of from a finished build. With a torn row set `RC` does not hold, so that induction has to carry "the torn task and
-its ancestors are fresh and nobody rewrites their inputs with different contents" explicitly. -/
-theorem C05_converge_partial (F : BodyFn) (P : Project) (g : G) (cfg : Cfg) (s : Sess) (spec : TaskSpec)
+executed. The chaining of these steps along the task order is `C05_converge_partial` below. -/
+theorem C05_converge_step (F : BodyFn) (P : Project) (g : G) (cfg : Cfg) (s : Sess) (spec : TaskSpec)
     (hwf : WF P g) (hspec : spec ∈ P.tasks) (hinv : Inv F P g s.w)
     (hout : (runPhases F P g cfg s spec).1 = .none ∨ (runPhases F P g cfg s spec).1 = .skippedUnchanged) :
     Fresh F (protocol F P g cfg s spec).w spec := by
@@ -114,6 +110,59 @@ theorem C05_converge_partial (F : BodyFn) (P : Project) (g : G) (cfg : Cfg) (s :
       (runPhases_none_fresh F P g cfg s spec (hwf.nodup spec hspec) (hwf.disj spec hspec) (hwf.honest spec hspec) h)
   · obtain ⟨hm, hs⟩ := rowsMatch_of_skippedUnchanged F P g cfg s spec h
     exact fresh_of_fs_eq (by rw [hfs, hs]) (hinv spec hspec hm)
+
+/-- **C05_converge_partial.** A build is started in a row-consistent world (`hrc`; any pre-crash history of finished builds and
+file edits, `C05_rc_init/_build`), processes the tasks `done` — each reported SUCCESS or SKIP_UNCHANGED — and is killed after
+an arbitrary number `j` of the atomic updates of the next task `tstar` (in the middle of its product writes, between two of its
+row commits, …). Then a recovery build (any configuration `cfg'`, any legal schedule `picks2`) runs in the world `w1` the kill
+left, processes every task and reports SUCCESS or SKIP_UNCHANGED for each. Conclusion:
+* every product on disk is its body's function of the module and dependency contents on disk — the from-scratch fixpoint;
+* all rows of all tasks match, hence
+* every later non-forced build executes nothing and changes nothing ("then stays quiet").
+
+Hypotheses that are *facts about pytask proved elsewhere or left to be linked*, named so that the gap to the full statement is
+explicit: `DataOrdered` / `FrameOrdered` / `hbip` (the schedule respects the data flow, the graph is bipartite with one producer
+per product: consequences of `C01_order`, `createDag`'s product check and the shape of `_create_dag_from_tasks`, not derived
+here from `createDag`); the reports of the recovery build being all SUCCESS / SKIP_UNCHANGED stands for "exit code 0, no skip
+markers, no selection"; the tasks processed by the killed build *before* the kill all ended SUCCESS / SKIP_UNCHANGED (lifting
+this to killed builds with failed or skipped tasks needs the failure containment `C04_contain`: a task whose body ran has no
+failed or skipped producer). Everything else — torn row sets, half-written product sets, forced recovery, arbitrary `j` — is
+covered. -/
+theorem C05_converge_partial (F : BodyFn) (P : Project) (g : G) (cfg cfg' : Cfg)
+    (hwf : WF P g) (hwf2 : WF2 P) (hbip : ∀ t, ∀ v ∈ neighbours g t, isTaskV v = true → v = tv t)
+    -- the killed build
+    (so0 so1 : Sorter) (s0 s1 : Sess) (hrc : RC F P g s0.w.db) (done : List Nat) (tstar : Nat) (specS : TaskSpec)
+    (hloop1 : buildLoop F P g cfg so0 s0 done = .ok (so1, s1)) (hgood1 : ∀ rep ∈ s1.reports, GoodOutcome rep.2)
+    (hfindS : Project.find? P tstar = some specS) (hord1 : DataOrdered P (fun _ => False) (done ++ [tstar]))
+    (j : Nat) (w1 : World) (hw1 : w1 = applySteps s1.w ((protocolSteps F P g cfg s1 specS).take j))
+    -- the recovery build
+    (so2 so3 : Sorter) (s2 s3 : Sess) (hs2 : s2.w = w1) (picks2 : List Nat)
+    (hloop2 : buildLoop F P g cfg' so2 s2 picks2 = .ok (so3, s3)) (hgood2 : ∀ rep ∈ s3.reports, GoodOutcome rep.2)
+    (hcr : s3.crashed = false) (hall : ∀ t ∈ P.tasks, t.id ∈ picks2)
+    (hord2 : DataOrdered P (fun _ => False) picks2) (hframe2 : FrameOrdered P g [] picks2) :
+    (∀ t ∈ P.tasks, Fresh F s3.w t) ∧ (∀ t ∈ P.tasks, RowsMatch P g s3.w t.id) ∧
+    (∀ (cfg'' : Cfg) (so4 so5 : Sorter) (s4 s5 : Sess) (picks : List Nat), cfg''.force = false → s4.w = s3.w →
+        buildLoop F P g cfg'' so4 s4 picks = .ok (so5, s5) → s5.log = s4.log ∧ s5.w = s4.w) := by
+  -- settled set after the completed part of the killed build
+  have q1 := q_loop hwf hwf2 cfg done so0 s0 so1 s1 (fun _ => False) (Q.of_rc hrc) hloop1 hgood1
+    (by
+      intro pre t post hp spec hf u hu hd
+      exact hord1 pre t (post ++ [tstar]) (by rw [hp]; simp) spec hf u hu hd)
+  -- … and at the kill point inside the protocol of `tstar`
+  have hprodS : ∀ u ∈ P.tasks, (∃ d ∈ specS.deps, d ∈ u.prods) → (False ∨ u.id ∈ done) :=
+    fun u hu hd => hord1 done tstar [] rfl specS hfindS u hu hd
+  obtain ⟨A1, hA1, q2⟩ := q_protocol_prefix hwf hwf2 cfg s1 specS (mem_of_find? hfindS) _ q1 hprodS j
+  rw [← hw1, ← hs2] at q2
+  -- the recovery build settles everything
+  have q3 := q_loop hwf hwf2 cfg' picks2 so2 s2 so3 s3 A1 q2 hloop2 hgood2 (hord2.mono (fun _ h => h.elim))
+  have hfresh := q3.allFresh (fun t ht => Or.inr (hall t ht))
+  have hrows : ∀ t ∈ P.tasks, RowsMatch P g s3.w t.id := by
+    have := rowsMatch_loop hwf hbip cfg' picks2 so2 s2 so3 s3 [] (fun _ h => by cases h) hloop2 hgood2 hcr hframe2
+    intro t ht
+    exact this t.id (by simpa using hall t ht)
+  refine ⟨hfresh, hrows, ?_⟩
+  intro cfg'' so4 so5 s4 s5 picks hforce hw4 hloop
+  exact quiet_loop hwf cfg'' hforce picks so4 s4 so5 s5 (by rw [hw4]; exact hrows) hloop
 
 /-- **memo_garbage_ok.** Whatever bytes a killed writer (or anything else) left in `.pytask/file_hashes.json`: if they do not
 parse, `pytask_post_parse` starts with the empty memo (`Generated.memoLoadSuppressed`: the whole load sits in
@@ -160,6 +209,18 @@ example : (build c05F c05P {} (crashAt c05F c05P {} c05W [0, 1] 8) [0, 1]).toOpt
 /-- hypotheses of `C05_no_redo` on this project: the protocol of task 0 succeeds and commits all its rows -/
 example : (runPhases c05F c05P c05G {} { w := c05W } c05P.tasks.head!).1 = .none ∧
     (updateStates c05P c05G (runPhases c05F c05P c05G {} { w := c05W } c05P.tasks.head!).2.w 0 (neighbours c05G 0)).2 = true := by decide
+/-- `C05_converge_partial` instantiated: the build is killed after 4 atomic updates (inside the row commits of task 0), the
+recovery build processes 0 and 1 and reports SUCCESS for both — all its hypotheses hold on this project, and its conclusion gives
+the from-scratch fixpoint for the recovered world. -/
+example : ∃ (so3 : Sorter) (s3 : Sess),
+    buildLoop c05F c05P c05G {} c05So { w := applySteps c05W ((protocolSteps c05F c05P c05G {} { w := c05W } c05T0).take 4) } [0, 1]
+      = .ok (so3, s3) ∧ s3.reports = [(0, .success), (1, .success)] ∧ ∀ t ∈ c05P.tasks, Fresh c05F s3.w t := by
+  refine ⟨_, _, rfl, by decide, ?_⟩
+  exact (C05_converge_partial c05F c05P c05G {} {} c05_wf c05_wf2 c05_bip c05So c05So { w := c05W } { w := c05W }
+    (C05_rc_init _ _ _) [] 0 c05T0 rfl (by intro rep h; cases h) rfl c05_ord1 4 _ rfl
+    c05So _ { w := applySteps c05W ((protocolSteps c05F c05P c05G {} { w := c05W } c05T0).take 4) } _ rfl [0, 1] rfl
+    (by decide) (by decide) (by intro t ht; simp [c05P] at ht; rcases ht with rfl | rfl <;> decide) c05_ord2 c05_frame2).1
+
 /-- garbage in the memo file loads as the empty memo -/
 example : loadMemo (fun _ => none) (some [0xff, 0xfe]) = some [] := by decide
 
